@@ -2,7 +2,8 @@ SPECIFICATION ASpec
 CONSTANTS
   Sym = {97, 10, 32, 9}
   MaxLen = 5
+  WithFailAt = FALSE
   MaxOps = 99
 VIEW AView
-INVARIANTS ATypeOK PosLaws ModelExplained SavedValid
+INVARIANTS ATypeOK PosLaws ModelExplained SavedValid EqLaw
 CHECK_DEADLOCK FALSE
